@@ -230,6 +230,14 @@ def gen_instance(seed, index, profile=None, max_trips=10, allow_weird=False):
             tracks = rng.choice([1, 1, 2]) if p != "multi_cycle" else rng.choice([1, 2, 2])
             slots.append({"id": "m%d" % s, "loc": locs[rng.randrange(nloc)], "start": st, "end": st + ln,
                           "tracks": tracks})
+    if slots and rng.random() < 0.3:
+        # a second slot at the same place right after an existing one: gap 0, or positive but shorter than
+        # the minimal shunting time (whether the two may share a vehicle is decided by the shunting rule)
+        o = rng.choice(slots)
+        gap = rng.choice([0, 0, max(0, shunt_min // 2), max(0, shunt_min - 1), shunt_min])
+        st = o["end"] + gap
+        slots.append({"id": "m%d" % len(slots), "loc": o["loc"], "start": st, "end": st + rng.choice([1, 2]) * grid,
+                      "tracks": rng.choice([1, 2])})
     I["slots"] = slots
     I["hasSlots"] = has_slots
     total_dist = sum(t["dist"] for t in trips)
